@@ -93,12 +93,18 @@ def _spellings(name, rng=None):
 
 
 class Universe:
-    def __init__(self, depth, small=False):
+    def __init__(self, depth, small=False, mixed=False):
         self.depth = depth
         self.cats = ["c1", "c2"]
         self.dbs = ["d1", "d2"]
         self.tabs = ["t", "u"]
         self.cols = ["a", "b"] if small else ["a", "b", "c"]
+        if mixed:
+            # mixed-case spellings that serve both as table and as column names (dialects such as BigQuery
+            # normalise the two roles differently)
+            self.dbs = ["Ds1", "ds2"]
+            self.tabs = ["Orders", "Region"]
+            self.cols = ["Region", "Qty", "Orders"]
         self.types = ["INT", "TEXT"]
 
     def full_tables(self):
@@ -272,7 +278,7 @@ def worker(ctx):
             break
         rng = ctx.case_rng(i)
         depth = rng.choice([1, 2, 2, 3])
-        u = Universe(depth)
+        u = Universe(depth, mixed=rng.random() < 0.3)
         cfg = (depth, rng.choice(DIALECTS), rng.random() < 0.75)
         ops = []
         tables = u.full_tables()
